@@ -218,9 +218,9 @@ def r_improve_loop(ctx):
         f = set(facts)
         if n.kind == "test" and res is not None:
             t = n.ast.test
-            if isinstance(t, ast.Compare) and len(t.ops) == 1 and isinstance(t.ops[0], ast.Eq) and isinstance(t.left, ast.Name) \
-                    and t.left.id == res:
-                rhs = ast.unparse(t.comparators[0])
+            if isinstance(t, ast.Compare) and len(t.ops) == 1 and isinstance(t.ops[0], ast.Eq) \
+                    and any(isinstance(x_, ast.Name) and x_.id == res for x_ in (t.left, t.comparators[0])):
+                rhs = ast.unparse(t.comparators[0] if (isinstance(t.left, ast.Name) and t.left.id == res) else t.left)
                 if rhs == "z3.unsat" and lab == "F":
                     f.add("not_unsat")
                 if rhs == "z3.unknown" and lab == "F":
